@@ -439,7 +439,7 @@ func (c *checker) checkAnnotations() {
 				}
 				v := vs[k]
 				o := obsRef{u.Version, int64(u.ChangesetID), u.Lat, u.Lon}
-				if !matches(ch, v, o) || !u.Timestamp.Equal(tm(v.Sec)) {
+				if !matches(ch, v, o) || !u.Timestamp.Equal(c.h.At(v.Sec)) {
 					c.add("update-fields", c.mode(x), "parent version %d index %d: update %+v does not carry the data / effective time (%d) of version %d", p.Version, j, u, v.Sec, v.Version)
 					continue
 				}
@@ -545,8 +545,11 @@ func (c *checker) timeTravel(r *gen.R) {
 		// candidate instants
 		cand := map[int64]bool{p.Sec: true}
 		for _, u := range ups {
-			s := u.Timestamp.Unix()
+			s := c.h.Tick(u.Timestamp)
 			cand[s], cand[s-1], cand[s+1] = true, true, true
+			if tps := c.h.TPS(); tps > 1 { // a second away, and the ends of the update's second
+				cand[s-tps], cand[s+tps], cand[s-s%tps], cand[s-s%tps+tps-1] = true, true, true, true
+			}
 		}
 		var hi int64 = p.Sec + 100
 		for _, rf := range p.Refs {
@@ -606,11 +609,11 @@ func (c *checker) timeTravel(r *gen.R) {
 			var err error
 			if h.Way {
 				w := eq.Clone(c.run.Ways[i])
-				err = w.ApplyUpdatesUpTo(tm(t))
+				err = w.ApplyUpdatesUpTo(c.h.At(t))
 				after = obsOfWay(w)
 			} else {
 				rl := eq.Clone(c.run.Relations[i])
-				err = rl.ApplyUpdatesUpTo(tm(t))
+				err = rl.ApplyUpdatesUpTo(c.h.At(t))
 				after = obsOfRel(rl)
 			}
 			if err != nil {
@@ -677,6 +680,9 @@ func UpdatesText(us osm.Updates) string {
 			sb.WriteByte(' ')
 		}
 		fmt.Fprintf(&sb, "%d:v%d@%d", u.Index, u.Version, u.Timestamp.Unix())
+		if ns := u.Timestamp.Nanosecond(); ns != 0 {
+			fmt.Fprintf(&sb, ".%09d", ns)
+		}
 	}
 	return sb.String()
 }
